@@ -96,6 +96,9 @@ def main():
         rec.case = case
         try:
             driver.run_case(case, rec)
+        except env.StrayDatabase as exc:
+            rec.violation('database-file-misplaced', str(exc))
+            rec.evaluations += 1
         except Exception as exc:
             tb = traceback.format_exc()
             if in_repo_frame(exc.__traceback__) and not getattr(driver, 'REPO_EXC_IS_HARNESS', False):
